@@ -360,13 +360,21 @@ def _work(chunk):
     outcomes = {}
     n = 0
     for what, impl, case in chunk:
-        if what == 'hist':
-            o = run_history(impl, case, out)
-            outcomes[o] = outcomes.get(o, 0) + 1
-            n += 1
-        else:
-            n += run_config_cells(impl, out)
+        try:
+            if what == 'hist':
+                o = run_history(impl, case, out)
+                outcomes[o] = outcomes.get(o, 0) + 1
+                n += 1
+            else:
+                n += run_config_cells(impl, out)
+        except report.Livelock as e:
+            out.append(report.livelock_violation(impl, e, {'impl': impl, 'case': case or {'cfg': 'cells'}}))
     return [v.to_json() for v in out[:300]], n, outcomes, len(out)
+
+
+def _short(choices):
+    t = ''.join(map(str, choices))
+    return t if len(t) <= 90 else t[:90] + '...(%d points)' % len(t)
 
 
 def run(ctx):
@@ -408,7 +416,7 @@ def run(ctx):
     for v in viols:
         rep.add(report.Violation(
             dict({'impl': v['params']['impl'], 'kind': v['kind']}, **v['sig']),
-            '[%s race events=%r choices=%s] %s' % (v['params']['impl'], v['params']['events'], ''.join(map(str, v['choices'])), v['text']),
+            '[%s race events=%r choices=%s] %s' % (v['params']['impl'], v['params']['events'], _short(v['choices']), v['text']),
             {'harness': 'race', 'params': v['params'], 'choices': v['choices']}, weight=(v['dev'], len(v['choices']))))
     rep.coverage = {
         'states': n + len(st.outcomes), 'transitions': n * 8 + st.points, 'traces_validated_against_impl': n + st.executions,
